@@ -14,7 +14,7 @@ use litep2p::{
     crypto::ed25519::Keypair,
     protocol::{libp2p::{identify, ping}, Direction, TransportEvent, TransportService, UserProtocol},
     substream::Substream,
-    transport::tcp::config::Config as TcpConfig,
+    transport::{quic::config::Config as QuicConfig, tcp::config::Config as TcpConfig, websocket::config::Config as WsConfig},
     types::{protocol::ProtocolName, SubstreamId},
     Litep2p, Litep2pEvent, PeerId,
 };
@@ -40,6 +40,8 @@ pub struct NodeCfg {
     pub perturb: Perturb,
     pub seed: u64,
     pub substream_open_timeout: Duration,
+    /// "tcp" | "ws" | "quic"
+    pub transport: String,
 }
 
 impl NodeCfg {
@@ -53,6 +55,7 @@ impl NodeCfg {
             perturb: Perturb::OFF,
             seed,
             substream_open_timeout: Duration::from_secs(5),
+            transport: "tcp".into(),
         }
     }
 }
@@ -81,6 +84,9 @@ pub enum ProtoCmd {
     Resume,
     /// return from `UserProtocol::run`, dropping the `TransportService`
     Exit,
+    /// call `open_substream` and return from `run` right away: the outcome of the open can only
+    /// arrive after the protocol is gone (it needs network round trips)
+    OpenExit { peer: PeerId, resp: oneshot::Sender<Result<f64, String>> },
 }
 
 pub enum AppCmd {
@@ -227,6 +233,15 @@ impl UserProtocol for Proto {
                         }
                         ProtoCmd::Pause => paused = true,
                         ProtoCmd::Resume => paused = false,
+                        ProtoCmd::OpenExit { peer, resp } => {
+                            let r = service.open_substream(peer).map(|id| id.verif_as_usize() as f64).map_err(|e| format!("open_substream: {e:?}"));
+                            drop(held);
+                            drop(jobs);
+                            drop(service);
+                            let _ = resp.send(r);
+                            log.push(json!({"e": "p_exit", "o": obs, "n": node, "q": q}));
+                            return Ok(());
+                        }
                         ProtoCmd::Exit => {
                             drop(held);
                             drop(jobs);
@@ -263,17 +278,31 @@ impl Node {
     /// Build and start the node.  Must be called inside a tokio runtime.
     pub fn start(cfg: &NodeCfg, log: Log) -> Node {
         let exec = Arc::new(PerturbExecutor::new(cfg.seed, cfg.perturb, log.clone(), &cfg.name));
-        let mut b = ConfigBuilder::new()
-            .with_keypair(Keypair::generate())
-            .with_tcp(TcpConfig {
+        let mut b = ConfigBuilder::new().with_keypair(Keypair::generate());
+        b = match cfg.transport.as_str() {
+            "ws" => b.with_websocket(WsConfig {
+                listen_addresses: vec!["/ip4/127.0.0.1/tcp/0/ws".parse().unwrap()],
+                reuse_port: false,
+                nodelay: true,
+                substream_open_timeout: cfg.substream_open_timeout,
+                ..Default::default()
+            }),
+            // quinn's idle timeout is taken from `connection_open_timeout` (no QUIC keep-alive pings are
+            // configured): 5 s lets a crashed remote be noticed well within the harness deadlines
+            "quic" => b.with_quic(QuicConfig {
+                listen_addresses: vec!["/ip4/127.0.0.1/udp/0/quic-v1".parse().unwrap()],
+                connection_open_timeout: Duration::from_secs(5),
+                substream_open_timeout: cfg.substream_open_timeout,
+            }),
+            _ => b.with_tcp(TcpConfig {
                 listen_addresses: vec!["/ip4/127.0.0.1/tcp/0".parse().unwrap()],
                 reuse_port: false,
                 nodelay: true,
                 substream_open_timeout: cfg.substream_open_timeout,
                 ..Default::default()
-            })
-            .with_keep_alive_timeout(cfg.keep_alive)
-            .with_executor(exec.clone());
+            }),
+        };
+        b = b.with_keep_alive_timeout(cfg.keep_alive).with_executor(exec.clone());
         let mut protos = HashMap::new();
         for q in &cfg.protos {
             let (tx, rx) = mpsc::channel(64);
@@ -305,6 +334,7 @@ impl Node {
                 let mut it = a.iter();
                 match (it.next(), it.next()) {
                     (Some(Protocol::Ip4(ip)), Some(Protocol::Tcp(port))) => Some(SocketAddr::new(ip.into(), port)),
+                    (Some(Protocol::Ip4(ip)), Some(Protocol::Udp(port))) => Some(SocketAddr::new(ip.into(), port)),
                     _ => None,
                 }
             })
@@ -319,7 +349,7 @@ impl Node {
                     ev = litep2p.next_event() => match ev {
                         None => { lg.push(json!({"e": "app_none", "o": obs, "n": name})); return; }
                         Some(Litep2pEvent::ConnectionEstablished { peer: _, endpoint }) => {
-                            let port = endpoint.address().iter().find_map(|p| if let Protocol::Tcp(x) = p { Some(x) } else { None });
+                            let port = endpoint.address().iter().find_map(|p| match p { Protocol::Tcp(x) | Protocol::Udp(x) => Some(x), _ => None });
                             lg.push(json!({"e": "app_est", "o": obs, "n": name, "cid": endpoint.connection_id().verif_as_usize(),
                                 "dir": if endpoint.is_listener() { "in" } else { "out" }, "port": port.unwrap_or(0)}));
                         }
@@ -424,14 +454,18 @@ impl Node {
         }
     }
 
-    /// Multiaddress under which `self` reaches `target_peer` through a proxy listening on `via`.
-    pub fn addr_via(via: SocketAddr, target_peer: PeerId) -> Multiaddr {
-        Multiaddr::empty()
-            .with(Protocol::Ip4(match via.ip() {
-                std::net::IpAddr::V4(x) => x,
-                _ => unreachable!(),
-            }))
-            .with(Protocol::Tcp(via.port()))
-            .with(Protocol::P2p(target_peer.into()))
+    /// Multiaddress under which a node reaches `target_peer` at socket address `via` (a proxy in front
+    /// of the target for tcp / ws, the target itself for quic).
+    pub fn addr_via(transport: &str, via: SocketAddr, target_peer: PeerId) -> Multiaddr {
+        let ip = Multiaddr::empty().with(Protocol::Ip4(match via.ip() {
+            std::net::IpAddr::V4(x) => x,
+            _ => unreachable!(),
+        }));
+        match transport {
+            "ws" => ip.with(Protocol::Tcp(via.port())).with(Protocol::Ws(std::borrow::Cow::Borrowed("/"))),
+            "quic" => ip.with(Protocol::Udp(via.port())).with(Protocol::QuicV1),
+            _ => ip.with(Protocol::Tcp(via.port())),
+        }
+        .with(Protocol::P2p(target_peer.into()))
     }
 }
